@@ -15,17 +15,50 @@ import (
 	"github.com/WuKongIM/WuKongIM/pkg/wklog"
 )
 
-const (
-	slotID   = 11
-	hashSlot = 5
+const slotID = 11
+
+// One temporary meta DB per harness process; every world (one per generated
+// history and one per run) gets a hash slot of its own, so the rows of
+// different cases never meet.  Opening a Pebble DB costs ~50 ms, a case only
+// a few commits.
+var (
+	sharedDir  string
+	sharedDB   *metadb.DB
+	nextHSlot  uint16
+	sharedUses int
 )
 
-// world is one temporary meta DB with the real slot state machine on top.
+func openShared() {
+	dir, err := os.MkdirTemp(tmpBase(), "verif-c17-")
+	if err != nil {
+		panic(err)
+	}
+	db, err := metadb.OpenWithLogger(dir, wklog.NewNop())
+	if err != nil {
+		os.RemoveAll(dir)
+		panic(err)
+	}
+	sharedDir, sharedDB, nextHSlot, sharedUses = dir, db, 0, 0
+}
+
+func closeShared() {
+	if sharedDB != nil {
+		sharedDB.Close()
+		sharedDB = nil
+	}
+	if sharedDir != "" {
+		os.RemoveAll(sharedDir)
+		sharedDir = ""
+	}
+}
+
+// world is one hash slot of the shared DB with the real slot state machine on top.
 type world struct {
-	dir string
-	db  *metadb.DB
-	sm  multiraft.BatchStateMachine
-	idx uint64
+	db       *metadb.DB
+	sm       multiraft.BatchStateMachine
+	hashSlot uint16
+	idx      uint64
+	ok       bool
 }
 
 func tmpBase() string {
@@ -36,34 +69,32 @@ func tmpBase() string {
 }
 
 func newWorld() *world {
-	dir, err := os.MkdirTemp(tmpBase(), "verif-c17-")
-	if err != nil {
-		panic(err)
+	if sharedDB == nil || nextHSlot >= 60000 {
+		closeShared()
+		openShared()
 	}
-	db, err := metadb.OpenWithLogger(dir, wklog.NewNop())
+	nextHSlot++
+	hs := nextHSlot
+	sm, err := fsm.NewStateMachineWithHashSlots(sharedDB, slotID, []uint16{hs})
 	if err != nil {
-		os.RemoveAll(dir)
-		panic(err)
-	}
-	sm, err := fsm.NewStateMachineWithHashSlots(db, slotID, []uint16{hashSlot})
-	if err != nil {
-		db.Close()
-		os.RemoveAll(dir)
 		panic(err)
 	}
 	bsm, ok := sm.(multiraft.BatchStateMachine)
 	if !ok {
 		panic("slot state machine is not a BatchStateMachine")
 	}
-	return &world{dir: dir, db: db, sm: bsm}
+	return &world{db: sharedDB, sm: bsm, hashSlot: hs}
 }
 
+// close releases the world.  A world that was not closed cleanly (a panic of
+// the implementation may have left locks held) takes the shared DB with it.
 func (w *world) close() {
-	if w.db != nil {
-		w.db.Close()
+	if !w.ok {
+		closeShared()
 	}
-	os.RemoveAll(w.dir)
 }
+
+func (w *world) done() { w.ok = true }
 
 // batchResult: either Err != "" (ApplyBatch returned an error; class) or one
 // result class per command: 0 ok, 1 stale_meta, 2 anything else.
@@ -77,7 +108,7 @@ func (w *world) apply(batch []cmdJ) batchResult {
 	cmds := make([]multiraft.Command, len(batch))
 	for i, c := range batch {
 		w.idx++
-		cmds[i] = multiraft.Command{SlotID: slotID, HashSlot: hashSlot, Index: w.idx, Term: 1, Data: c.encode()}
+		cmds[i] = multiraft.Command{SlotID: slotID, HashSlot: w.hashSlot, Index: w.idx, Term: 1, Data: c.encode()}
 	}
 	results, err := w.sm.ApplyBatch(context.Background(), cmds)
 	if err != nil {
@@ -117,7 +148,7 @@ type chanKey struct {
 }
 
 func (w *world) tasks() []metadb.ChannelMigrationTask {
-	ts, err := w.db.ForHashSlot(hashSlot).ListChannelMigrationTasks(context.Background())
+	ts, err := w.db.ForHashSlot(w.hashSlot).ListChannelMigrationTasks(context.Background())
 	if err != nil {
 		panic(fmt.Sprintf("ListChannelMigrationTasks: %v", err))
 	}
@@ -125,7 +156,7 @@ func (w *world) tasks() []metadb.ChannelMigrationTask {
 }
 
 func (w *world) meta(k chanKey) (metadb.ChannelRuntimeMeta, bool) {
-	m, err := w.db.ForHashSlot(hashSlot).GetChannelRuntimeMeta(context.Background(), k.ID, k.Ty)
+	m, err := w.db.ForHashSlot(w.hashSlot).GetChannelRuntimeMeta(context.Background(), k.ID, k.Ty)
 	if err != nil {
 		if errors.Is(err, metadb.ErrNotFound) {
 			return metadb.ChannelRuntimeMeta{}, false
@@ -136,7 +167,7 @@ func (w *world) meta(k chanKey) (metadb.ChannelRuntimeMeta, bool) {
 }
 
 func (w *world) activeIdx(k chanKey) (string, bool) {
-	v, ok, err := metadb.VerifC17ActiveIndex(w.db, hashSlot, k.ID, k.Ty)
+	v, ok, err := metadb.VerifC17ActiveIndex(w.db, w.hashSlot, k.ID, k.Ty)
 	if err != nil {
 		panic(fmt.Sprintf("active index(%v): %v", k, err))
 	}
@@ -275,6 +306,7 @@ func run(in input) vh.Result {
 	if class == "" {
 		class = "empty"
 	}
+	w.done()
 	return vh.Result{
 		Coq:     vh.App("C17Case", vh.List(steps)),
 		Obs:     obs,
